@@ -1,5 +1,5 @@
 (* C20 Locality: results depend only on referenced data *)
-From LD Require Import Base F32 Data Model Ops Bucket Eval EvalFacts Pure Order Locality Acyclic LocalityEval.
+From LD Require Import Base F32 Data Model Ops Bucket Eval EvalFacts Pure Order Locality Acyclic LocalityEval ExtraKind.
 From Coq Require Import Permutation.
 
 (* flag metadata (version, deleted, client-side availability, debug date, sampling, migration, track-events,
@@ -89,3 +89,20 @@ Theorem C20_unreferenced_hypotheses_nonvacuous :
   flag_nr (s "extra") f /\ env_nr (mkenv [(s "f", f)] []) (s "extra") /\ str_eqb (s "key") (s "extra") = false.
 Proof. exact hypotheses_hold_somewhere. Qed.
 Print Assumptions C20_unreferenced_hypotheses_nonvacuous.
+
+(* free x k: the configuration's kind k ([] = the default kind) is not the added context's kind; flag_free / env_free: every
+   target list, context-target list, clause, rollout, segment rule, per-kind segment list and unbounded segment of the
+   evaluated flag and of the whole store is free, and a clause on the attribute "kind" cannot match the added kind.
+   Then adding the individual context x -- which turns a single-kind context into a multi-kind one -- leaves the whole
+   outcome unchanged. (Before the repair bc60e70 this was false of the code: regular_lists consulted the context's own
+   Kind().) *)
+Theorem C20_unmentioned_kind_whole_evaluation : forall re_ok re_match o E P c x,
+  free x [] -> env_free re_ok re_match E x -> forall f, flag_free re_ok re_match x f ->
+  run re_ok re_match o E P (add_kind c x) f = run re_ok re_match o E P c f.
+Proof. exact unmentioned_kind_is_invisible. Qed.
+Print Assumptions C20_unmentioned_kind_whole_evaluation.
+Theorem C20_unmentioned_kind_nested : forall re_ok re_match o E P c x,
+  free x [] -> env_free re_ok re_match E x -> forall fuel chain f, flag_free re_ok re_match x f -> forall st,
+  eval_flag re_ok re_match o E P (add_kind c x) fuel chain f st = eval_flag re_ok re_match o E P c fuel chain f st.
+Proof. exact eval_flag_x. Qed.
+Print Assumptions C20_unmentioned_kind_nested.
